@@ -13,6 +13,8 @@ PRELUDE = """    #[diplomat::opaque]
     pub struct StV<'p, 'q> { pub f: &'p OpLt<'q>, pub s: DiplomatSlice<'q, u8> }
     #[diplomat::attr(auto, error)]
     pub struct Er1<'p> { pub f: &'p Opq }
+    #[diplomat::attr(not(supports = option), disable)]
+    pub struct StO<'p, 'q> { pub f: &'p Opq, pub s: DiplomatSlice<'p, u8>, pub o: DiplomatOption<DiplomatStrSlice<'q>>, pub w: DiplomatOption<DiplomatSlice<'p, u16>>, pub n: DiplomatOption<u8> }
 """
 ALLFEATURES = {"name": "verif", "other": [], "supports": profiles.FEATURES}
 
@@ -69,7 +71,7 @@ def render(n, sig, L):
 
 
 def module(items):
-    return "#[diplomat::bridge]\nmod ffi {\n    use diplomat_runtime::{DiplomatSlice, DiplomatWrite};\n" + PRELUDE + "\n".join(items) + "}\n"
+    return "#[diplomat::bridge]\nmod ffi {\n    use diplomat_runtime::{DiplomatOption, DiplomatSlice, DiplomatStrSlice, DiplomatWrite};\n" + PRELUDE + "\n".join(items) + "}\n"
 
 
 def run_edges(wd, batches, tag):
@@ -182,7 +184,41 @@ def backend_emission(rep, cases, L, wd, k):
     return nchecked
 
 
-STRUCT_OF_KIND = {"st1": "St1", "st2": "St2", "st2b": "St2b", "nst2": "Nst2", "stv": "StV"}
+STRUCT_OF_KIND = {"st1": "St1", "st2": "St2", "st2b": "St2b", "nst2": "Nst2", "stv": "StV", "sto": "StO"}
+
+
+def struct_buffers(rep, wd, buffers):
+    """BuffersFor of Lifetimes.tla: the native copy of a slice/string field (optional or not) whose type mentions definition lifetime l
+    must be made in an arena chosen through l's append array -- never unconditionally in the call's temporary arena.  Dart
+    (`_toFfi`) and JS with the spec ABI (`_writeToArrayBuffer`; the legacy path puts slices into no arena at all, see ./extra jscall)."""
+    src = os.path.join(wd, "buffers.rs")
+    use = "".join("        pub fn u_%s<'a, 'b: 'a>(x: %s) {}\n" % (k, "%s<%s>" % (n, "'a" if k == "st1" else "'a, 'b")) for k, n in STRUCT_OF_KIND.items())
+    open(src, "w").write(module(["    #[diplomat::opaque]\n    pub struct User(u8);\n    impl User {\n%s    }\n" % use]))
+    n = 0
+    for b, cfg in (("dart", None), ("js", ["js.abi=spec"])):
+        out = os.path.join(wd, "buffers_" + b)
+        r = lib.run_tool(b, src, out, config=cfg)
+        if r["rc"] != 0:
+            rep.violation({"leg": "buffers", "backend": b, "what": "backend failed on the prelude structs"}, {"stderr": r["stderr"][-1200:]})
+            continue
+        for k, name in STRUCT_OF_KIND.items():
+            t = open(os.path.join(out, name + (".mjs" if b == "js" else ".g.dart"))).read()
+            for l in ("p", "q"):
+                for f in buffers[k][l]:
+                    if b == "dart":
+                        m = re.search(r'\n    struct\.%s = ([^\n]*)' % f, t)
+                        ok = bool(m) and ("%sAppendArray" % l) in m.group(1) and "AllocIn(" in m.group(1)
+                    else:
+                        body = re.search(r'\n    _writeToArrayBuffer\((.*?)\n    \}\n', t, re.S)
+                        line = next((x for x in (body.group(1).split("\n") if body else []) if ("this.#%s" % f) in x), "")
+                        m = re.search(r'.+', line)
+                        ok = ("appendArrayMap['%sAppendArray']" % l) in line and ".alloc(" in line
+                    n += 1
+                    if not ok:
+                        rep.violation({"leg": "buffers", "backend": b, "struct": name, "field": f, "lifetime": l,
+                                       "what": "the native copy of a borrowed buffer field is not tied to its lifetime's arena"},
+                                      {"statement": (m.group(0)[:400] if m else None)})
+    return n
 
 
 def struct_getters(rep, wd, getters):
@@ -338,4 +374,5 @@ def run(rep, tier):
     gt = lib.tlc("life", "MC_Lifetimes", "getters.cfg", workers=1, coverage=False)
     lib.tlc_expect_ok(gt, "struct field/lifetime table")
     rep.extra["struct_getters_checked"] = struct_getters(rep, wd, gt.printed["GETTERS"][0])
+    rep.extra["struct_buffer_fields_checked"] = struct_buffers(rep, wd, gt.printed["BUFFERS"][0])
     rep.exhaustive = (tier == "thorough")
